@@ -35,6 +35,11 @@ def relabel(orc, sentence):
 def sched(n, **kw):
     return {'scen': 'sched', 'args': dict(kw), 'n': n}
 
+def grammar(n, per, **kw):
+    a = {'per': per}
+    a.update(kw)
+    return {'scen': 'grammar', 'args': a, 'n': n}
+
 def P(pid, **kw):
     kw.setdefault('module', f'Tcs.Props.{pid}')
     kw.setdefault('theorems', [])
@@ -46,8 +51,8 @@ def P(pid, **kw):
 
 P('C01', theorems=['Tcs.C01_stored_eq_accepted', 'Tcs.C01_no_shared_parent', 'Tcs.C01_chain_walk', 'Tcs.C01_chain_walk_sql', 'Tcs.C01_chain_walk_mem'],
   owned={'av.kind', 'av.id', 'av.latest', 'gcv.kind', 'gcv.ids', 'gcv.payload', 'dump.own.latest', 'dump.own.versions', 'dump.own.children', 'dump.other.latest', 'dump.other.versions', 'dump.other.children'},
-  oracles=[O.o_c01],
-  plan={'quick': [hist('default', 260, LIBHTTP)], 'thorough': [hist('default', 4000, LIBHTTP), hist('long', 600, LIBHTTP)]})
+  oracles=[O.o_c01, relabel(O.o_c03, 'C01: no two versions share a parent and every accepted version stays on the chain, also when requests overlap')],
+  plan={'quick': [hist('default', 260, LIBHTTP), sched(60, mix='av', corpus='0')], 'thorough': [hist('default', 4000, LIBHTTP), hist('long', 600, LIBHTTP), sched(1500, mix='av', corpus='0')]})
 P('C02', theorems=['Tcs.C02_spec', 'Tcs.C02_atomic_compare_append', 'Tcs.C02_new_id_never_issued'],
   owned={'av.kind', 'av.id', 'av.latest', 'dump.own.latest', 'dump.own.versions', 'dump.own.children', 'dump.own.since', 'http.status.av', 'http.headers.av'},
   oracles=[O.o_c02, relabel(O.o_c03, 'C02: an AddVersion is accepted exactly when its parent is the latest version at that moment, also when requests overlap')],
@@ -67,8 +72,8 @@ P('C10', theorems=['Tcs.C10_accept_iff', 'Tcs.C10_window_five', 'Tcs.C10_told_su
         'thorough': [hist('c10', 5000, 'mem:lib,sql:lib,sql:http'), sched(1500, mix='asav', corpus='0', minprefill='3')]})
 P('C11', theorems=['Tcs.asRunH_lastSnap', 'Tcs.C11_latest_snapshot', 'Tcs.C11_usable_base', 'Tcs.walkOuts_from_base'],
   owned={'snap.vid', 'snap.payload', 'gs.kind', 'gcv.kind'},
-  oracles=[O.o_c11],
-  plan={'quick': [hist('c11', 220, LIBHTTP)], 'thorough': [hist('c11', 4000, LIBHTTP)]})
+  oracles=[O.o_c11, relabel(O.o_c03, 'C11: GetSnapshot returns the most recently accepted snapshot, also with AddSnapshot overlapping GetSnapshot, AddVersion and other AddSnapshots under the controlled scheduler')],
+  plan={'quick': [hist('c11', 220, LIBHTTP), sched(120, mix='asav', corpus='0', minprefill='3')], 'thorough': [hist('c11', 4000, LIBHTTP), sched(1500, mix='asav', corpus='0', minprefill='3')]})
 P('C09', theorems=['Tcs.C09_frame', 'Tcs.C09_own_record_only', 'Tcs.asRunH_projection', 'Tcs.fresh_filter', 'Tcs.C09_noninterference', 'Tcs.C09_noninterference_sql', 'Tcs.C09_noninterference_mem', 'Tcs.C09_others_cannot_change'],
   owned={'av.kind', 'av.latest', 'gcv.kind', 'gcv.ids', 'gcv.payload', 'snap.accept', 'snap.vid', 'snap.payload', 'gs.kind', 'as.kind', 'state.dump'},
   oracles=[O.o_c09_frame], proj=True,
@@ -81,13 +86,8 @@ P('C13', theorems=['Tcs.C13_any_two_backends', 'Tcs.C13_backends_agree', 'Tcs.C1
   plan={'quick': [hist('c13', 260, ALL3)], 'thorough': [hist('c13', 6000, ALL3), hist('long', 500, ALL3)]})
 P('C18', theorems=['Tcs.C18_spec', 'Tcs.C18_no_id', 'Tcs.C18_noop', 'Tcs.C18_tables', 'Tcs.C18_tables_sql', 'Tcs.C18_tables_mem', 'Tcs.readsPure_sql', 'Tcs.readsPure_mem', 'Tcs.run_readOnly'],
   owned={'noop.dump'},
-  oracles=[O.o_c18],
-  plan={'quick': [hist('default', 220, LIBHTTP)], 'thorough': [hist('default', 4000, LIBHTTP)]})
-
-def grammar(n, per, **kw):
-    a = {'per': per}
-    a.update(kw)
-    return {'scen': 'grammar', 'args': a, 'n': n}
+  oracles=[O.o_c18, relabel(O.o_c15, 'C18: any refused request leaves every client\'s stored state exactly as it was')],
+  plan={'quick': [hist('default', 220, LIBHTTP), grammar(6, 120, lists='none,one')], 'thorough': [hist('default', 4000, LIBHTTP), grammar(60, 300, lists='none,one,many')]})
 
 P('C03', theorems=['Tcs.C03_linearizable_partial', 'Tcs.C03_library_linearizable', 'Tcs.C03_linearizable_core', 'Tcs.C03_from_init', 'Tcs.C03_no_overlap_5xx', 'Tcs.C03_no_double_accept', 'Tcs.C03Ex.C03_relaxation_needed',
                    'Tcs.C03_http_run', 'Tcs.C03_http_responses', 'Tcs.C03_library_step', 'Tcs.machine_linearizable', 'Tcs.runinv_run', 'Tcs.arel_step', 'Tcs.linrel_step', 'Tcs.C03_reduction_prefix',
@@ -135,11 +135,11 @@ P('C16', theorems=['Tcs.C16_unlisted', 'Tcs.C16_unlisted_403', 'Tcs.C16_listed_t
   owned={'http.status', 'calls.txns', 'noop.dump'},
   oracles=[O.o_c16],
   plan={'quick': [grammar(24, 150, lists='one,many,empty,none')], 'thorough': [grammar(240, 300, lists='one,many,empty,none')]})
-P('C20', theorems=['Tcs.C20_all_responses', 'Tcs.C20_value', 'Tcs.C20_wrapper_idempotent'],
+P('C20', theorems=['Tcs.C20_all_responses', 'Tcs.C20_value', 'Tcs.C20_wrapper_idempotent'], needs_binary=True,
   owned={'http.cache'},
   oracles=[O.o_c20],
-  plan={'quick': [grammar(12, 160), hist('default', 40, 'mem:http,sql:http'), {'scen': 'fault', 'args': {}, 'n': 8}],
-        'thorough': [grammar(120, 300), hist('default', 600, 'mem:http,sql:http'), {'scen': 'fault', 'args': {}, 'n': 100}]})
+  plan={'quick': [grammar(12, 160), hist('default', 40, 'mem:http,sql:http'), {'scen': 'fault', 'args': {}, 'n': 8}, {'scen': 'py:c17', 'args': {'mode': 'broken'}, 'n': 3, 'shards': 3}],
+        'thorough': [grammar(120, 300), hist('default', 600, 'mem:http,sql:http'), {'scen': 'fault', 'args': {}, 'n': 100}, {'scen': 'py:c17', 'args': {'mode': 'broken'}, 'n': 24, 'shards': 8}, {'scen': 'py:c17', 'args': {}, 'n': 24, 'shards': 8}]})
 P('C06', theorems=['Tcs.C06_assemble', 'Tcs.C06_chunking_irrelevant', 'Tcs.C06_split_anywhere', 'Tcs.C06_version_roundtrip', 'Tcs.C06_snapshot_roundtrip', 'Tcs.C06_response_body', 'Tcs.assemble_spec'],
   owned={'gcv.payload', 'snap.payload', 'http.body.gcv', 'http.body.gs', 'gcv.ids', 'snap.vid'},
   oracles=[O.o_c06],
@@ -466,7 +466,8 @@ PROPS['C19']['ties'] = [(T_ + 'Open', ['Tcs.sqlSrc_open_statements'], ['sql:open
                         (T_ + 'GetClient', ['Tcs.sqlSrc_getClient'], ['sql:getClient'])]
 # the protocol operations of core/src/server.rs, translated statement by statement
 PROPS['C02']['ties'] = [(SV + 'AddVersion', ['Tcs.serverSrc_addVersion'], ['server:addVersion'])]
-PROPS['C08']['ties'] = [(SV + 'GetChild', ['Tcs.serverSrc_getChildVersion'], ['server:getChildVersion'])]
+# GetChildVersion writes nothing: its tie is up to the order of its two reads (ServerSrcTie/GetChildSem.lean; the step-for-step tie of the pinned source stays in GetChild.lean, unregistered)
+PROPS['C08']['ties'] = [(SV + 'GetChildSem', ['Tcs.serverSrc_getChildVersion_sem', 'Tcs.serverSrc_getChildVersion_sem_sql', 'Tcs.serverSrc_getChildVersion_sem_mem', 'Tcs.readsOk_sql', 'Tcs.readsOk_mem'], ['server:getChildVersion'])]
 PROPS['C10']['ties'] = [(SV + 'AddSnapshot', ['Tcs.serverSrc_addSnapshot', 'Tcs.serverSrc_addSnapshot_impl', 'Tcs.serverSrc_loop'], ['server:addSnapshot'])]
 PROPS['C11']['ties'] = [(SV + 'GetSnapshot', ['Tcs.serverSrc_getSnapshot'], ['server:getSnapshot'])]
 # the clap declarations and the wiring of main
